@@ -88,13 +88,13 @@ Definition update_fallthrough_target (s : st) (source new_target : nat) : st :=
   set_cfg s1 (cfg_add (mk_edge' (NB source) (NB new_target) ET_FALLTHROUGH) (cfg s1)).
 
 (* add_return_edges_to_callee: proxy return edges leave the IR's CFG, the new edge goes to the patch CFG *)
-Definition add_return_edges_to_callee (s : st) (f : nat) (return_target : node) (pcfg : list edge) : st * list edge :=
+Definition add_return_edges_to_callee (s : st) (f : nat) (return_targets : list node) (pcfg : list edge) : st * list edge :=
   fold_left (fun acc b =>
                let '(s, pc) := acc in
                match block_return_edges s b with
                | [] => (s, pc)
                | _ => (set_cfg s (fold_left (fun c e => cfg_discard e c) (block_proxy_return_edges s b) (cfg s)),
-                       cfg_add (mk_edge' (NB b) return_target ET_RETURN) pc)
+                       fold_left (fun pc rt => cfg_add (mk_edge' (NB b) rt ET_RETURN) pc) return_targets pc)
                end)
             (func_blocks s f) (s, pcfg).
 
@@ -227,6 +227,11 @@ Definition are_joinable (s : st) (b1 b2 : nat) : bool * st :=
   else
     let '(syms, s) := get_refs s b2 in
     if existsb (fun sy => negb (sym_at_end s sy)) syms then (false, s)
+    else
+    (* a symbol at the end of block1 would end up at the end of the joined block *)
+    let '(ends1, s) := if bsize x2 =? 0 then (false, s)
+                       else let '(syms1, s) := get_refs s b1 in (existsb (fun sy => sym_at_end s sy) syms1, s) in
+    if ends1 then (false, s)
     else if bkind_eqb (bk x1) KCode then
       let any_out := existsb (fun e => negb (is_ft e) || negb (node_eqb (tgt e) (NB b2))) (out_edges s b1) in
       if any_out && negb (bsize x2 =? 0) then (false, s)
